@@ -348,9 +348,16 @@ class UCSolutionEnumerator():
                 + ([(choice[2],
                      self.generate_leftover_sample(choice[2], leftover))] if leftover > 0 else []))
 
+    def _each_combination_once(self, trial_count: int) -> bool:
+        # A run of this length contains every crossing combination exactly once only if, in addition, no crossed
+        # complex-window factor multiplies the combinations; otherwise a run as long as the number of noncomplex
+        # combinations is a leftover in which a combination may repeat or be missing.
+        return (trial_count == len(self._crossing_instances) and self._crossing_is_unweighted
+                and self.__complex_crossing_instances == 1)
+
     def random_components(self, components_shape: RandomComponentsShape, trial_count: int, leftover: int) -> Components:
         crossing_permutation_index = random.randrange(0, components_shape.crossings_shape)
-        if trial_count == len(self._crossing_instances) and self._crossing_is_unweighted:
+        if self._each_combination_once(trial_count):
             source_combination_indices = tuple([random.randrange(0, len)
                                                 for len in components_shape.combinations_shapes])
         else:
@@ -445,7 +452,7 @@ class UCSolutionEnumerator():
         # Generate the source combinations for the selected sequence.
         source_combinations = cast(List[dict], [])
         for i, p in enumerate(permutation_indices):
-            if trial_count == len(self._crossing_instances) and self._crossing_is_unweighted:
+            if self._each_combination_once(trial_count):
                 component_for_p = components[1][p]
             else:
                 component_for_p = components[1][i]
@@ -629,7 +636,7 @@ class UCSolutionEnumerator():
         # of all combinations; in that case, we can just multiply the new segment
         # lengths into `solution_count`. Otherwise, we need to consider every choice of
         # `first_n` crossing combinations, and then multiply the
-        if first_n == len(self._crossing_instances) and self._crossing_is_unweighted:
+        if self._each_combination_once(first_n):
             solution_count *= reduce(op.mul, components_shape.combinations_shapes, 1)
         else:
             solution_count = self.sum_combination_products(solution_count,
